@@ -59,7 +59,16 @@ Clauses(o, ev, o2) ==
              THEN <<F("sibling-blocked", "")>> ELSE <<>>)
       [] OTHER -> <<>>
 
+(* ... including the send the server makes on the application's behalf when it ends: on HTTP/2 an abandoned  *)
+(* response is flushed and reset after the application has returned, and that wait must end with the          *)
+(* connection as well - visible only as a connection handler that never finishes.                            *)
+Hidden(o, ev) ==
+    IF ev.e = "quiescent" /\ o.opened /\ IsH2(o) /\ o.final /\ ev.handler
+       /\ (o.gone \/ o.reset \/ o.closedAt >= 0)
+       /\ \A a \in DOMAIN o.apps : App(o, a).done # ""
+    THEN <<F("send-never-released", "after-application-ended")>> ELSE <<>>
+
 MInit == [o |-> OInit, fails |-> <<>>]
-MStep(m, ev) == LET o2 == OStep(m.o, ev) IN [o |-> o2, fails |-> m.fails \o Clauses(m.o, ev, o2)]
+MStep(m, ev) == LET o2 == OStep(m.o, ev) IN [o |-> o2, fails |-> m.fails \o Clauses(m.o, ev, o2) \o Hidden(m.o, ev)]
 MFails(m) == m.fails
 =============================================================================
